@@ -32,5 +32,5 @@ PY
   done
 fi
 (cd "$WT" && git diff --stat | tail -1)
-VERIF_REPO="$WT" /verif/check "$ID" --tier "$TIER" 2>&1 | grep -E "^(VIOLATION|OK|KNOWN|INCONCLUSIVE|  (clause|signature))" | head -20
+VERIF_REPO="$WT" /verif/check "$ID" --tier "$TIER" 2>&1 | grep -E "^(VIOLATION|OK|KNOWN|INCONCLUSIVE|  (clause|signature))" | grep -v "^KNOWN" | head -30
 echo "exit=${PIPESTATUS[0]}"
